@@ -238,6 +238,9 @@ def rewrite_func_as_lambda(f: ast.FunctionDef) -> ast.Lambda:
         - It is assumed that the ast passed in won't be altered in place - no deep copy is
           done of the statement or args - they are just re-used.
     """
+    if not isinstance(f, ast.FunctionDef):
+        # Calling an `async def` gives a coroutine, not the value of its return expression.
+        raise ValueError(f'Only a plain `def` can be used as a lambda - "{f.name}" is not.')
     interesting_body = [
         b for b in f.body if not (isinstance(b, ast.Expr) and isinstance(b.value, ast.Constant))
     ]
